@@ -85,6 +85,8 @@ var fnTargets = []*fnTarget{
 	{fn: "data/balance.Amount.CheckInRange", name: "amountCheckInRange"},
 	{fn: "data/balance.Coin.Plus", name: "coinPlus"},
 	{fn: "data/balance.Coin.Minus", name: "coinMinus"},
+	{fn: "data/balance.Currency.Base", name: "currencyBase"},
+	{fn: "data/balance.Currency.NewCoinFromInt", name: "newCoinFromInt"},
 	{fn: "data/balance.Coin.LessThanCoin", name: "coinLessThan"},
 	{fn: "data/balance.Coin.LessThanEqualCoin", name: "coinLessThanEqual"},
 	{fn: "data/balance.Coin.DivideInt64", name: "coinDivideInt64"},
@@ -506,6 +508,15 @@ func (c *fctx) call(x *ast.CallExpr) (string, string) {
 		return "(Int.tdiv " + arg(0) + " " + arg(1) + ")", "I"
 	case "(*math/big.Int).Rem":
 		return "(Int.tmod " + arg(0) + " " + arg(1) + ")", "I"
+	case "(*math/big.Int).Exp":
+		// Exp(x, y, nil) = x^y (y <= 0 gives 1, as in math/big); a modulus is not translated
+		if len(x.Args) == 3 {
+			if id, ok := x.Args[2].(*ast.Ident); ok && id.Name == "nil" {
+				return "(" + arg(0) + " ^ (Int.toNat " + arg(1) + "))", "I"
+			}
+		}
+		c.fail("Exp with a modulus: " + plain(x))
+		return "0", "I"
 	case "(*math/big.Int).Neg":
 		return "(-" + arg(0) + ")", "I"
 	case "(*math/big.Int).Abs":
